@@ -8,6 +8,11 @@ PROPS = {
     'C11': ('theories/Properties/C11.v', ['MeshLayout'], 'c11'),
     'C12': ('theories/Properties/C12.v', ['ProtoLayout'], 'c12'),
     'C13': ('theories/Properties/C13.v', ['ImageLayout', 'FormatNames'], 'c13'),
+    'C02': ('theories/Properties/C02.v', [], 'c02'),
+    'C04': ('theories/Properties/C04.v', [], 'c04'),
+    'C10': ('theories/Properties/C10.v', [], 'c10'),
+    'C16': ('theories/Properties/C16.v', [], 'c16'),
+    'C17': ('theories/Properties/C17.v', [], 'c17'),
 }
 
 
